@@ -214,6 +214,27 @@ where
         // Refuse a rumor without an id before anything is written for it
         let rumor_event_id = rumor_event.id.ok_or(Error::MissingRumorEventId)?;
 
+        // The same invitation delivered again under another wrapper id: return the stored
+        // welcome as it is (accepted, declined or still pending) instead of staging it again
+        // and resetting it to pending. Remember the wrapper so that it is recognised next time.
+        if let Some(existing) = self
+            .storage()
+            .find_welcome_by_event_id(&rumor_event_id)
+            .map_err(|e| Error::Welcome(e.to_string()))?
+        {
+            let processed_welcome = welcome_types::ProcessedWelcome {
+                wrapper_event_id: *wrapper_event_id,
+                welcome_event_id: Some(rumor_event_id),
+                processed_at: Timestamp::now(),
+                state: welcome_types::ProcessedWelcomeState::Processed,
+                failure_reason: None,
+            };
+            self.storage()
+                .save_processed_welcome(processed_welcome)
+                .map_err(|e| Error::Welcome(e.to_string()))?;
+            return Ok(existing);
+        }
+
         let welcome_preview = self.preview_welcome(wrapper_event_id, rumor_event)?;
 
         // Create a pending group
